@@ -6,11 +6,21 @@ Prints the check output for the variant; the scratch copy lives in a tempdir and
 import os, shutil, subprocess, sys, tempfile
 from .model import REPO
 
+def copy_tree(repo, d):
+    """the whole working tree (a patch may also touch README, tests, ...), without VCS data and caches"""
+    for name in sorted(os.listdir(repo)):
+        if name in (".git", "__pycache__", ".pytest_cache") or name.endswith(".egg-info"):
+            continue
+        src = os.path.join(repo, name)
+        if os.path.isdir(src):
+            shutil.copytree(src, os.path.join(d, name), ignore=shutil.ignore_patterns("__pycache__", ".pytest_cache"))
+        elif os.path.isfile(src):
+            shutil.copy(src, os.path.join(d, name))
+
+
 def make_variant(edits=None, patch=None, repo=REPO):
     d = tempfile.mkdtemp(prefix="sa-variant-")
-    shutil.copytree(os.path.join(repo, "eudoxia"), os.path.join(d, "eudoxia"), ignore=shutil.ignore_patterns("__pycache__"))
-    if os.path.isdir(os.path.join(repo, "go")):
-        shutil.copytree(os.path.join(repo, "go"), os.path.join(d, "go"))
+    copy_tree(repo, d)
     if patch:
         r = subprocess.run(["patch", "-p1", "-s", "-i", os.path.abspath(patch)], cwd=d, capture_output=True, text=True)
         if r.returncode != 0:
